@@ -161,6 +161,11 @@ std::pair<std::string, Verdict> badValue(Rng& rng, char type) {
            {"-1%", REJECT}, {"", REJECT}, {"M", REJECT}, {"1.5.2M", REJECT},
            {"%", REJECT}, {"12%3", REJECT}, {"9223372036854775807", REJECT},
            {"8796093022208M", REJECT}, {"1G1", ABSTAIN}, {"-5M", ABSTAIN},
+           // several components, each in range, whose sum is not
+           {"8388607T 8388607T 2T", REJECT}, {"4194304T 4194304T", REJECT},
+           {"8388607T 8388607T 8388607T", REJECT},
+           {"8388607T 8388607T 1T 1T 1G", REJECT},
+           {"4194303T 4194303T 1T", ACCEPT},
            {"0x10", ABSTAIN}, {"5.5%", ABSTAIN}, {"1.5G 32K", ACCEPT},
            {" 10% ", ABSTAIN}, {"+5M", ABSTAIN}};
       break;
@@ -295,6 +300,11 @@ void mutate(Rng& rng, GenDoc& g, bool dropin) {
       break;
     }
     case 4: { // ruleset name
+      if (dropin && rng.chance(0.4)) {
+        rs["name"] = "no_such_base";
+        worse(g, REJECT, "drop-in ruleset targets an unknown ruleset");
+        break;
+      }
       if (rng.chance(0.5))
         rs["name"] = "";
       else
@@ -440,7 +450,9 @@ GenDoc genDoc(Rng& rng, bool dropin) {
   for (auto& p : table())
     (p.kind == 'D' ? dets : acts).push_back(&p);
   int idc = 0;
-  int nr = dropin ? 1 : (int)rng.range(1, 2);
+  // a drop-in file may carry several rulesets (each one a copy of its
+  // target): every one of them has to be valid for the file to be taken
+  int nr = dropin ? rng.pick({1, 1, 2, 3}) : (int)rng.range(1, 2);
   for (int r = 0; r < nr; r++) {
     Json::Value rs(Json::objectValue);
     rs["name"] = dropin ? std::string("base0") : "rs" + std::to_string(r);
